@@ -39,7 +39,9 @@ TEXT = {
 CLAIMS, NOT_YET = {}, {}
 for i in range(1, 21):
     pid = f"C{i:02d}"
-    mods = [m for u in UNITS.values() for m in u.get("props", {}).get(pid, [])]
+    sys.path.insert(0, os.path.dirname(os.path.abspath(__file__)))
+    from props import _auto
+    mods = _auto.lean_modules(pid)
     if mods:
         CLAIMS[pid] = {"text": TEXT[pid] + " Lean modules: " + ", ".join(mods) + ".", "note": COMMON_NOTE, "technique": T,
                        "design_ref": f"DESIGN.md 6/{pid}"}
